@@ -216,6 +216,32 @@ class Hazards:
             return None
         return const_extent(f, f["params"][k]["name"], kind, u.fns)
 
+    LEN_NAMES = ("mlen", "clen", "inlen", "len", "adlen", "outlen")
+
+    def length_extent(self, fn, g, k, ops, kind):
+        """extent of a (buffer, length) access of a callee whose byte count is an explicit argument: `stream_xor_ic(c, m, mlen, ...)`
+        writes c[0..mlen) and reads m[0..mlen), `poly1305_update(st, in, inlen)` reads in[0..inlen). Constant length: exact extent;
+        otherwise open-ended from 0."""
+        if k >= len(g.params) or g.params[k]["ty"] != "i8*":
+            return None
+        pname = g.params[k]["name"]
+        lens = [j for j, q in enumerate(g.params) if q["name"] in self.LEN_NAMES and q["ty"] in ("i64", "i32")]
+        if len(lens) != 1 or pname not in ("c", "m", "in", "out", "ad"):
+            return None
+        if kind == "store" and pname not in ("c", "out", "m"):
+            return None
+        if kind == "store" and not (k == 0):
+            return None                     # by the library's convention the output comes first
+        if kind == "load" and k == 0 and pname in ("c", "out", "m") and any(q["name"] in ("c", "m", "in") for q in g.params[1:]):
+            return None                     # first of two buffers: that is the output
+        j = lens[0]
+        if j >= len(ops):
+            return None
+        n = ops[j]
+        if n[0] == "i":
+            return (0, n[1])
+        return (0, None)
+
     def accesses(self, fn, dst, src):
         """[(inst id, 'W'|'R', base frozenset, lo, hi|None, text)]"""
         ln = Lin(fn)
@@ -241,7 +267,7 @@ class Hazards:
                         openend = True
                         continue
                 base[v] = s
-            return frozenset(base.items()), lo + size_lo, None if openend else lo + size_hi
+            return frozenset(base.items()), lo + size_lo, None if (openend or size_hi is None) else lo + size_hi
 
         for i, ins in enumerate(fn.insts):
             op = ins["op"]
@@ -279,11 +305,11 @@ class Hazards:
                     if a is None:
                         continue
                     if a[0] == ("a", dst):
-                        ex = self.callee_extent(g, k, "store")
+                        ex = self.callee_extent(g, k, "store") or self.length_extent(fn, g, k, ops, "store")
                         if ex:
                             out.append((i, "W") + norm(a, ex[0], ex[1]) + (g.sname,))
                     if a[0] == ("a", src):
-                        ex = self.callee_extent(g, k, "load")
+                        ex = self.callee_extent(g, k, "load") or self.length_extent(fn, g, k, ops, "load")
                         if ex:
                             out.append((i, "R") + norm(a, ex[0], ex[1]) + (g.sname,))
         return out
